@@ -118,12 +118,78 @@ def o_chunked(inp):
     return fails
 
 
+def o_chunked_split(inp):
+    """the same equivalence with chunks cut by `Sequence.split` at bar lines (such chunks carry a signature message only where the
+    signature changes, unlike `Bar` objects) and a tokeniser built for another resolution (ppqn = 24*k, the piece scaled by k)"""
+    k = inp["scale"]
+    kw = dict(inp["cfg"])
+    base = P.TkCfg(**kw)
+    tracks = [[tuple(m) for m in t] for t in inp["tracks"]]
+    if not valid_piece(base.kw, tracks):
+        return [("~skip:invalid-piece", "")]
+    try:
+        tb = bars_of(tracks)
+    except Exception:
+        return [("~skip:split-bars-raises", "")]
+    nb = len(tb[0])
+    lens = []
+    for b in tb[0]:
+        _, d = rel_timed([from_real(m) for m in b.sequence.rel._messages])
+        lens.append(d * k)
+    cuts = sorted({c for c in inp["cuts"] if 0 < c < nb})
+    bounds = [0] + cuts + [nb]
+    caps = [sum(lens[lo:hi]) for lo, hi in zip(bounds, bounds[1:])]
+    # a note sounding across a cut would be cut and re-struck by split: the chunks are then a different piece
+    edges, acc = set(), 0
+    for c_ in caps[:-1]:
+        acc += c_
+        edges.add(acc // k)
+    notes_, _, _, _ = piece_of_tracks(tracks)
+    if any(on < e_ < on + dur for ns in notes_ for (p_, on, dur, v_) in ns for e_ in edges):
+        return [("~skip:note-crosses-a-cut", "")]
+    kw.update(ppqn=24 * k, step_sizes=[x * k for x in [2, 3, 4, 6, 8, 12, 16, 24]], note_values=[x * k for x in [24, 12, 6, 16, 8, 4, 36, 18, 9]])
+    tk = P.TkCfg(**kw).tk()
+
+    def scaled():
+        out = []
+        for t in tracks:
+            s_ = P.seq_of_rel([(m[0], m[1], (m[2] * k if m[0] == WAIT else m[2])) + tuple(m[3:]) for m in t])
+            s_.pad(sum(lens))
+            out.append(s_)
+        return out
+    try:
+        whole = tk.tokenise(scaled())
+    except Exception:
+        return [("~skip:single-call-rejects", "")]
+    sd, toks = {}, []
+    try:
+        pieces = [s_.split(caps[:-1]) for s_ in scaled()]
+        for j in range(len(caps)):
+            from scoda.sequences.sequence import Sequence
+            toks += tk.tokenise([(p[j] if j < len(p) else Sequence()) for p in pieces], state_dict=sd)
+    except Exception as e:
+        return [("chunk-raises", f"{type(e).__name__}: {e} (partition {bounds})")]
+    try:
+        va = detok_view(tk.detokenise(whole))
+        vb = detok_view(tk.detokenise(toks))
+    except Exception as e:
+        return [("detokenise-raises", f"{type(e).__name__}: {e}")]
+    fails = []
+    for ti, (a, b) in enumerate(zip(va, vb)):
+        if a["notes"] != b["notes"]:
+            fails.append(("notes", f"track {ti}: single call {a['notes']}, chunked {b['notes']} (partition {bounds}, ppqn {24 * k})"))
+        if a["bar_ends"] != b["bar_ends"]:
+            fails.append(("bar-grid", f"track {ti}: single call {a['bar_ends']}, chunked {b['bar_ends']} (partition {bounds}, ppqn {24 * k})"))
+    return fails
+
+
 def setup(ctx):
     ctx.oracle("chunked", o_chunked)
+    ctx.oracle("chunked_split", o_chunked_split)
     ctx.history_oracles = {"chunked"}
 
     def kf_d19(f):
-        return f["clause"] in ("notes", "bar-grid") and stalled_chunk([[tuple(m) for m in t] for t in f["input"]["tracks"]], f["input"]["cuts"])
+        return f["oracle"] == "chunked" and f["clause"] in ("notes", "bar-grid") and stalled_chunk([[tuple(m) for m in t] for t in f["input"]["tracks"]], f["input"]["cuts"])
     ctx.kf_predicates["D19"] = kf_d19
 
 
@@ -152,6 +218,9 @@ def generate(ctx):
         for cuts in parts:
             ctx.case((piece["tracks"], sorted(kw.items()), cuts), len(cuts) >= 1 and nn >= 2)
             ctx.check("chunked", {"cfg": kw, "tracks": piece["tracks"], "cuts": cuts})
+        if i % 2 == 0:
+            ctx.count("chunks-by-Sequence.split")
+            ctx.check("chunked_split", {"cfg": kw, "tracks": piece["tracks"], "cuts": parts[0], "scale": rng.choice([1, 2, 2, 4])})
         prev = {"cfg": kw, "tracks": piece["tracks"]}
         ctx.count("bars:%d" % nb)
         # correspondence: every call of the finest partition, with the state Python carried into it
